@@ -247,9 +247,26 @@ func c16Verifier(c *Ctx) {
 	rule := "the plugin name taken from the (not yet authenticated) signature flows only into plugin.Manager.Get, comparisons and logging/error text — never into a path or process call of its own"
 	var bad []string
 	seen := map[ssa.Value]bool{}
+	// the walk follows the value forward: through interfaces, phis, logging argument lists, into the parameters of module
+	// functions it is passed to, and out of module functions that return it (to the matching result at every call site)
 	var walk func(v ssa.Value, depth int)
+	callSites := func(g *ssa.Function) []*ssa.Call {
+		var out []*ssa.Call
+		for _, fn := range w.Funcs {
+			for _, ci := range allCalls(fn) {
+				if call, ok := ci.(*ssa.Call); ok && staticCallee(call) == g {
+					out = append(out, call)
+				}
+			}
+		}
+		return out
+	}
 	walk = func(v ssa.Value, depth int) {
-		if seen[v] || depth > 6 || v.Referrers() == nil {
+		if seen[v] || v.Referrers() == nil {
+			return
+		}
+		if depth > 10 {
+			bad = append(bad, "flow too deep to follow at "+desc(v))
 			return
 		}
 		seen[v] = true
@@ -257,8 +274,8 @@ func c16Verifier(c *Ctx) {
 			c.Evals++
 			switch x := r.(type) {
 			case *ssa.DebugRef, *ssa.BinOp:
-			case *ssa.MakeInterface:
-				walk(x, depth+1)
+			case *ssa.MakeInterface, *ssa.ChangeType:
+				walk(x.(ssa.Value), depth+1)
 			case *ssa.Store:
 				// into a varargs array for logging
 				if ia, ok := x.Addr.(*ssa.IndexAddr); ok {
@@ -271,20 +288,72 @@ func c16Verifier(c *Ctx) {
 						continue
 					}
 				}
+				// a local the value is kept in (a result spilled because of a defer, an address-taken variable): its loads
+				if al, ok := x.Addr.(*ssa.Alloc); ok && x.Val == v {
+					okLocal := true
+					for _, rr := range *al.Referrers() {
+						switch y := rr.(type) {
+						case *ssa.Store:
+							if y.Addr != ssa.Value(al) {
+								okLocal = false
+							}
+						case *ssa.UnOp:
+							walk(y, depth+1)
+						case *ssa.DebugRef:
+						default:
+							okLocal = false
+						}
+					}
+					if okLocal {
+						continue
+					}
+				}
 				bad = append(bad, "stored to "+desc(x.Addr))
 			case *ssa.Call:
 				n := calleeName(x)
+				g := staticCallee(x)
 				switch {
 				case x == get:
 				case strings.HasPrefix(n, "fmt."), strings.HasPrefix(n, "invoke:ngo/log.Logger."):
-					if x.Type() != nil && x.Type().String() == "string" {
-						// message text: may flow on into errors only
+					// message text: may flow on into errors only
+				case g != nil && g.Blocks != nil && w.IsProductFn(g) && len(g.Params) == len(x.Call.Args):
+					for i, a := range x.Call.Args {
+						if a == v {
+							c.SeenFn(g.String())
+							walk(g.Params[i], depth+1)
+						}
 					}
 				default:
 					bad = append(bad, "passed to "+n)
 				}
 			case *ssa.Phi:
 				walk(x, depth+1)
+			case *ssa.Return:
+				g := x.Parent()
+				if !w.IsProductFn(g) || g.Signature.Recv() != nil && token.IsExported(g.Name()) || g.Signature.Recv() == nil && token.IsExported(g.Name()) {
+					bad = append(bad, "returned from "+fnName(g))
+					continue
+				}
+				sites := callSites(g)
+				if len(sites) == 0 {
+					bad = append(bad, "returned from "+fnName(g)+" (call sites not found)")
+				}
+				for k, rv := range x.Results {
+					if rv != v {
+						continue
+					}
+					for _, call := range sites {
+						if len(x.Results) == 1 {
+							walk(call, depth+1)
+							continue
+						}
+						for _, rr := range *call.Referrers() {
+							if e, ok := rr.(*ssa.Extract); ok && e.Index == k {
+								walk(e, depth+1)
+							}
+						}
+					}
+				}
 			default:
 				bad = append(bad, fmt.Sprintf("%T", r))
 			}
